@@ -303,4 +303,37 @@ theorem gameDefault_eval :
       | none => none)
       = some (encExtra (valveIntoExtra Valve.Gather.default)) := rfl
 
+theorem valveModDefault_eval :
+    evalClosed Gen.Arms.valveModDefaultSettings = some (encValveGather Valve.Gather.default) := rfl
+
+/-! ### the hand-written modules' wrappers -/
+
+theorem handWrappers_eval (port : Option Nat) (timeout : Option Settings.Timeout) :
+    (Gen.Arms.handWrappers.map fun w => (w.1, w.2.1, w.2.2.1, evalHandWrapper w.2.2.2 port timeout))
+      = [("savage2", "query", .savage2QueryWithTimeout, some [.addr, encOpt .num port, .none_]),
+         ("theship", "query", .theShipQueryWithTimeout, some [.addr, encOpt .num port, .none_]),
+         ("ffow", "query", .ffowQueryWithTimeout, some [.addr, encOpt .num port, .none_]),
+         ("jc2m", "query", .jc2mQueryWithTimeout, some [.addr, encOpt .num port, .none_]),
+         ("eco", "query", .ecoQueryWithTimeout, some [.addr, encOpt .num port, .none_]),
+         ("eco", "query_with_timeout", .ecoQuery, some [.addr, encOpt .num port, encOpt .timeout timeout, .none_])] := by
+  cases port <;> cases timeout <;> rfl
+
+/-- the calls those argument lists decode to -/
+theorem handWrappers_decode (port : Option Nat) :
+    Call.decode .savage2QueryWithTimeout [.addr, encOpt .num port, .none_] = some (.savage2QueryWithTimeout port none)
+    ∧ Call.decode .theShipQueryWithTimeout [.addr, encOpt .num port, .none_] = some (.theShipQueryWithTimeout port none)
+    ∧ Call.decode .ffowQueryWithTimeout [.addr, encOpt .num port, .none_] = some (.ffowQueryWithTimeout port none)
+    ∧ Call.decode .jc2mQueryWithTimeout [.addr, encOpt .num port, .none_] = some (.jc2mQueryWithTimeout port none)
+    ∧ Call.decode .ecoQuery [.addr, encOpt .num port, encOpt .timeout none, .none_] = some (.ecoQuery port none none) := by
+  cases port <;> exact ⟨rfl, rfl, rfl, rfl, rfl⟩
+
+/-- … and the model of each of these modules makes exactly that call -/
+theorem handModules_eq_run (ext : Ext) (port : Option Nat) :
+    moduleQuery ext .savage2 port = (Call.savage2QueryWithTimeout port none).run ext
+    ∧ moduleQuery ext .theShip port = (Call.theShipQueryWithTimeout port none).run ext
+    ∧ moduleQuery ext .ffow port = (Call.ffowQueryWithTimeout port none).run ext
+    ∧ moduleQuery ext .jc2m port = (Call.jc2mQueryWithTimeout port none).run ext
+    ∧ moduleQuery ext .eco port = (Call.ecoQuery port none none).run ext :=
+  ⟨rfl, rfl, rfl, rfl, rfl⟩
+
 end Gd.Arms
